@@ -446,7 +446,16 @@ class _DictStruct(dict, ImmutableMixin):
     def __iter__(self):
         # Overriding __iter__ makes dict(x), {**x} and dict.update(x) read the values
         # through keys()/__getitem__ (defensive copies) instead of CPython's direct copy.
-        return super().__iter__()
+        # The keys are handed out like the values: a mutable key (a Structure) of an
+        # immutable owner as a defensive copy.
+        return iter(self.keys())
+
+    def keys(self):
+        if not self._is_immutable():
+            return super().keys()
+        return dict.fromkeys(
+            self._get_defensive_copy_if_needed(k) for k in super().keys()
+        ).keys()
 
     def __or__(self, other):
         return self.copy() | other
@@ -455,7 +464,13 @@ class _DictStruct(dict, ImmutableMixin):
         return other | self.copy()
 
     def items(self):
-        return ((k, self._get_defensive_copy_if_needed(v)) for k, v in super().items())
+        return (
+            (
+                self._get_defensive_copy_if_needed(k),
+                self._get_defensive_copy_if_needed(v),
+            )
+            for k, v in super().items()
+        )
 
     def values(self):
         return (self._get_defensive_copy_if_needed(v) for v in super().values())
